@@ -21,7 +21,7 @@ LEVEL = "exploration"
 GRID = [0.0, 0.25, 1.0, 1.5, 2.0, 2.75, 3.0]
 TOLS = [0.0, 0.2, 0.25, 0.5, 1.0, 1.5]
 METHODS = ["nearest", "backward", "forward"]
-LABELS = ["d1", "d2", "d3", "d4"]
+LABELS = ["m", "c", "x", "a"]  # declaration order is not the alphabetical order
 
 
 def all_alignments(axes, tol, method):
@@ -58,7 +58,9 @@ def all_alignments(axes, tol, method):
 
 def make_spec(case):
     n = len(case["axes"])
-    mcs = {"m1": S.mc_model(["s1", "s2"]), "m2": S.mc_model(["s2", "s3"])}
+    # end to end: the first megacomplex is index dependent, the second is not (the stacked matrix of a group must be
+    # rebuilt at every aligned point)
+    mcs = {"m1": S.mc_model(["s1", "s2"], index_dependent=bool(case.get("indexdep"))), "m2": S.mc_model(["s2", "s3"])}
     ds = []
     for k in range(n):
         d = S.dataset(LABELS[k], case["axes"][k], n_model=[5, 6, 7, 8][k], megacomplexes=["m1"] if k % 2 == 0 else ["m2"])
@@ -157,7 +159,7 @@ def case_e2e(case):
     """optimize() on linked datasets: result clps/residuals equal the independent reference; clps shared iff aligned"""
     from vf.checks import c03
 
-    spec = make_spec(case)
+    spec = make_spec(dict(case, indexdep=True))
     axes = [(d["label"], [float(v) for v in d["global_axis"]]) for d in spec["datasets"]]
     allowed = all_alignments(axes, float(case["tol"]), case["method"])
     if "ambiguous" in allowed:
